@@ -239,26 +239,19 @@ Qed.
 
 Definition typed_has_vals (s : vspec) : Prop := vs_vals s = [] -> vs_type s = TNone.
 
-(* the remembered type `typ` is exact, or stale after a qualified-type spec -- then
-   the next spec has values and overwrites or resets it before it is read *)
-Definition head_has_vals (b : cblock) : Prop :=
-  match b with [] => True | s :: _ => vs_vals s <> [] end.
-
-Lemma block_collect_gen : forall p E T k,
+Lemma block_collect : forall p E T k,
   T <> "" -> kind_of_type p T = Some k ->
   forall b env iota last typ,
-  (typ = tyname (fst last) \/ head_has_vals b) ->
+  typ = tyname (fst last) ->
   Forall typed_has_vals b ->
-  foreign_ok_block b = true ->
   Forall (good E) (block_entries p env iota last b) ->
   collect_block p E T typ b = map (mkv k) (decl_of T (block_entries p env iota last b)).
 Proof.
   intros p E T k HT Hk b.
-  induction b as [|s b IH]; intros env iota last typ Htyp Hshape Hfo Hg.
+  induction b as [|s b IH]; intros env iota last typ Htyp Hshape Hg.
   - reflexivity.
   - cbn [block_entries collect_block] in Hg |- *.
     inversion Hshape as [|s' b' Hs Hshape']; subst s' b'.
-    cbn [foreign_ok_block] in Hfo. apply andb_true_iff in Hfo. destruct Hfo as [Hfs Hfo'].
     apply Forall_app in Hg. destruct Hg as [Hg1 Hg2].
     rewrite decl_of_app, map_app.
     rewrite (spec_collect p E T k HT Hk _ _ _ _ _ Hg1).
@@ -266,36 +259,22 @@ Proof.
     assert (Hne : String.eqb "" T = false) by (apply String.eqb_neq; congruence).
     destruct (vs_type s) as [|t|fk] eqn:Hty.
     + destruct (vs_vals s) as [|v0 vals] eqn:Hvals.
-      * (* carried down: the remembered type must be exact *)
-        destruct Htyp as [Htyp|Hhd]; [|exfalso; apply Hhd; cbn; exact Hvals].
-        rewrite <- Htyp.
-        rewrite (IH _ _ _ typ (or_introl Htyp) Hshape' Hfo' Hg2).
+      * rewrite <- Htyp.
+        rewrite (IH _ _ _ typ Htyp Hshape' Hg2).
         destruct (String.eqb typ T); reflexivity.
       * cbn [fst snd tyname]. rewrite Hne. cbn [app].
-        apply IH; [left; reflexivity | exact Hshape' | exact Hfo' | exact Hg2].
+        apply IH; [reflexivity | exact Hshape' | exact Hg2].
     + destruct (vs_vals s) as [|v0 vals] eqn:Hvals.
       * specialize (Hs eq_refl). discriminate.
       * cbn [fst snd tyname].
-        rewrite (IH _ _ (TIdent t, v0 :: vals) t (or_introl eq_refl) Hshape' Hfo' Hg2).
+        rewrite (IH _ _ (TIdent t, v0 :: vals) t eq_refl Hshape' Hg2).
         destruct (String.eqb t T); reflexivity.
-    + destruct (vs_vals s) as [|v0 vals] eqn:Hvals.
+    + (* a qualified type: skipped, the remembered type is forgotten; what is carried
+         down from it is of that qualified type, never of T *)
+      destruct (vs_vals s) as [|v0 vals] eqn:Hvals.
       * specialize (Hs eq_refl). discriminate.
       * cbn [fst snd tyname]. rewrite Hne. cbn [app].
-        apply IH; [right | exact Hshape' | exact Hfo' | exact Hg2].
-        destruct b as [|s' b'']; [exact I|]. cbn.
-        destruct (vs_vals s'); [discriminate Hfs | discriminate].
-Qed.
-
-Lemma block_collect : forall p E T k,
-  T <> "" -> kind_of_type p T = Some k ->
-  forall b env iota last typ,
-  typ = tyname (fst last) ->
-  Forall typed_has_vals b ->
-  foreign_ok_block b = true ->
-  Forall (good E) (block_entries p env iota last b) ->
-  collect_block p E T typ b = map (mkv k) (decl_of T (block_entries p env iota last b)).
-Proof.
-  intros p E T k HT Hk b env iota last typ Htyp. apply block_collect_gen; try assumption. left. exact Htyp.
+        apply IH; [reflexivity | exact Hshape' | exact Hg2].
 Qed.
 
 (* ------------------------------------------------ the walk, all blocks ---- *)
@@ -304,19 +283,17 @@ Lemma blocks_collect : forall p E T k,
   T <> "" -> kind_of_type p T = Some k ->
   forall bs env,
   Forall (Forall typed_has_vals) bs ->
-  Forall (fun b => foreign_ok_block b = true) bs ->
   Forall (good E) (blocks_contrib p env bs) ->
   flat_map (collect_block p E T "") bs = map (mkv k) (decl_of T (blocks_contrib p env bs)).
 Proof.
   intros p E T k HT Hk bs.
-  induction bs as [|b bs IH]; intros env Hshape Hnf Hg.
+  induction bs as [|b bs IH]; intros env Hshape Hg.
   - reflexivity.
   - cbn [flat_map blocks_contrib] in Hg |- *.
     inversion Hshape as [|b' bs' Hb Hshape']; subst b' bs'.
-    inversion Hnf as [|b' bs' Hbf Hnf']; subst b' bs'.
     apply Forall_app in Hg. destruct Hg as [Hg1 Hg2].
     rewrite decl_of_app, map_app.
-    rewrite (IH _ Hshape' Hnf' Hg2).
+    rewrite (IH _ Hshape' Hg2).
     f_equal.
     apply block_collect; try assumption. reflexivity.
 Qed.
@@ -350,13 +327,6 @@ Proof.
   apply (block_shape_typed_has_vals b true). exact Hs.
 Qed.
 
-Lemma foreign_ok_blocks : forall p,
-  foreign_ok p = true -> Forall (fun b => foreign_ok_block b = true) (all_blocks p).
-Proof.
-  intros p Hnf. unfold foreign_ok in Hnf. rewrite forallb_forall in Hnf.
-  apply Forall_forall. exact Hnf.
-Qed.
-
 Lemma const_env_good : forall p,
   wf_pkg p = true -> no_implicit p = true -> Forall (good (const_env p)) (const_env p).
 Proof.
@@ -369,11 +339,11 @@ Qed.
 (* ================================================================ results == *)
 
 Theorem collect_eq : forall p T k,
-  wf_pkg p = true -> shape_ok p = true -> foreign_ok p = true -> no_implicit p = true ->
+  wf_pkg p = true -> shape_ok p = true -> no_implicit p = true ->
   T <> "" -> kind_of_type p T = Some k ->
   collect p T = map (mkv k) (declared T p).
 Proof.
-  intros p T k Hwf Hshape Hnf Hni HT Hk.
+  intros p T k Hwf Hshape Hni HT Hk.
   unfold collect. rewrite flat_map_concat. fold (all_blocks p).
   rewrite declared_decl_of.
   pose proof (const_env_good p Hwf Hni) as Hg.
@@ -383,7 +353,6 @@ Proof.
   - exact HT.
   - exact Hk.
   - apply shape_ok_typed_has_vals. exact Hshape.
-  - apply foreign_ok_blocks. exact Hnf.
   - exact Hg.
 Qed.
 
